@@ -601,7 +601,20 @@ def gen_history(rng, prop, tier="quick"):
         op["id"] = i          # handles refer to ids, so a minimised history stays meaningful
     if prop == "C11" and not cfg["fault_free"]:
         ops = _add_cancellations(cfg, ops)
+    _add_second_caller(cfg, ops)
     return cfg, ops
+
+
+def _add_second_caller(cfg, ops):
+    """One run in eight: the simulated caller has a second long-lived thread, and each call is
+    issued from one of the two (sequentially - which thread calls is the only thing that varies).
+    Drawn from a generator seeded by the history, like the cancellations."""
+    trng = random.Random(zlib.crc32(("2nd:" + json.dumps(ops, sort_keys=True, default=repr)).encode()))
+    cfg["two_callers"] = trng.random() < 0.125
+    if cfg["two_callers"]:
+        for op in ops:
+            if op["op"] != "mutate" and trng.random() < 0.45:
+                op["thr"] = 1
 
 
 def _add_cancellations(cfg, ops):
@@ -619,6 +632,7 @@ def _add_cancellations(cfg, ops):
             c = dict(op, id=nid, why="cancel")
             c.pop("gt", None)
             c["cancel"] = int(math.exp(crng.uniform(0.0, math.log(6000.0))))
+            c["exc"] = crng.choice(("SimCancel", "SimCancel", "MemoryError", "RecursionError"))
             nid += 1
             out.append(c)
         out.append(op)
@@ -752,6 +766,8 @@ class _GenState:
             x = gen_failing_selfies(rng, self.ctx())
             op = {"op": "decode", "x": x, "compatible": rng.random() < 0.15, "attribute": rng.random() < 0.3, "why": "fail"}
             self.all_calls.append(dict(op))
+            if len(x) % 2:
+                op["keep_exc"] = True       # the caller keeps the exception object (an error list)
             yield op
             if rng.random() < 0.5:   # a later success sharing the novel symbols
                 yield {"op": "decode", "x": x.replace(self._bad_of(x), ""), "compatible": False, "attribute": False,
@@ -759,7 +775,7 @@ class _GenState:
         elif kind == "encode_fail":
             bad = derive_failing_smiles(rng) if rng.random() < 0.5 else rng.choice(SMILES_BAD)
             yield {"op": "encode", "s": bad, "strict": rng.random() < 0.5,
-                   "attribute": rng.random() < 0.3, "why": "fail"}
+                   "attribute": rng.random() < 0.3, "why": "fail", "keep_exc": len(bad) % 2 == 1}
         elif kind == "flood":
             yield {"op": "decode", "x": gen_flood(rng), "compatible": False, "attribute": False, "why": "flood"}
         elif kind == "observe":
